@@ -616,7 +616,7 @@ def reduce_axis(t: Tensor, axis: int, kind: str):
                 pst.assume_forall(sorts, lambda *a: z3.Implies(z3.And(a[-1] >= 0, a[-1] < _apply(af, a[:-1])), body(*a) > _apply(vf, a[:-1])), f"{base}.first")
             wit = lambda *p: z3.And(_apply(af, p) >= 0, _apply(af, p) < dz, body(*(tuple(p) + (_apply(af, p),))) == _apply(vf, p))  # noqa: E731
             if nparams == 0:
-                pst.assume(wit())
+                pst.assume(wit(), name=f"{mk}.wit")
             else:
                 pst.assume_forall([INT] * nparams, wit, f"{base}.wit")
         if kind in ("max", "min"):
@@ -1240,6 +1240,12 @@ def concatenate(ts, axis=0):
 
     def fn(*o):
         j = o[axis]
+        jc = j if isinstance(j, int) and not isinstance(j, bool) else (C.concrete_of(z3.simplify(C.to_z3(j))) if isinstance(j, (Sym, z3.ExprRef)) else None)
+        if isinstance(jc, int) and not isinstance(jc, bool) and jc >= 0 and all(isinstance(off, int) and isinstance(t.shape[axis], int) for t, off in zip(ts, offs)):
+            # concrete position and concrete piece sizes: select the piece directly (pieces are only read inside their range)
+            for t, off in zip(ts, offs):
+                if off <= jc < off + t.shape[axis]:
+                    return t.at(*(o[:axis] + (jc - off,) + o[axis + 1:]))
         r = None
         for t, off in reversed(list(zip(ts, offs))):
             jj = C.binop("-", j, off) if not (isinstance(off, int) and off == 0) else j
